@@ -114,6 +114,13 @@ def _run_one(args) -> dict:
         with redirect_stdout(buf):
             code, ctx = run_property(pid, root, "quick", overrides=overrides, write=False, quiet=True)
     except AnalysisError as e:
+        if w.get("kind") == "refactor":
+            exp = w.get("expected_exit", 0)
+            res.update(status="not-silent" if exp == 0 else "known-false-alarm", detail=f"exit 2: {e}"[:300])
+            return res
+        if w.get("kind") == "recorded-miss":
+            res.update(status="recorded-miss-now-undecided", detail=str(e)[:200])
+            return res
         # an edit that destroys an anchor is reported as analysis error, which is an acceptable way to fire
         res.update(status="fired-as-analysis-error" if w.get("kind", "break") == "break" and w.get("allow_error") else "error",
                    detail=str(e))
@@ -121,8 +128,21 @@ def _run_one(args) -> dict:
     except Exception as e:  # noqa: BLE001
         res.update(status="error", detail=f"{type(e).__name__}: {e}")
         return res
+    if res["kind"] == "refactor":
+        exp = w.get("expected_exit", 0)
+        if code == 0:
+            res.update(status="silent" if exp == 0 else "repaired", detail="")
+        elif exp == 0:
+            res.update(status="not-silent", detail=f"exit {code}: " + "; ".join(f.human() for f in ctx.findings)[:300])
+        else:
+            res.update(status="known-false-alarm", detail=f"exit {code} (recorded in refactors/expected.json, to be repaired): "
+                       + "; ".join(sorted({f.rule for f in ctx.findings}))[:200])
+        return res
     known = {(k.rule, k.at, k.construct) for k in load_known() if k.prop == pid}
     unlisted = [f for f in ctx.findings if (f.rule, f.at, f.construct) not in known]
+    if w.get("kind") == "recorded-miss":
+        res.update(status="recorded-miss-now-detected" if unlisted else "recorded-miss", detail="; ".join(sorted({f.rule for f in unlisted}))[:200])
+        return res
     if w.get("kind", "break") == "break":
         hits = [f for f in unlisted if w["rule"] in f.rule]
         if hits:
@@ -154,7 +174,23 @@ def run_selftest(pid: str, root: str) -> dict:
                 meta = _json.load(open(mf, encoding="utf-8"))
                 if meta.get("expected_static") is False:
                     continue
-                witnesses.append({"name": f"seeded {name}", "patch": pf, "rule": meta.get("expected_rule", "")})
+                # a seeded change the property's check does not report (yet) is run and listed, but does not fail the self-test
+                must = meta.get("detected_by_own_check", True)
+                witnesses.append({"name": f"seeded {name}", "patch": pf, "rule": meta.get("expected_rule", ""),
+                                  "kind": "break" if must else "recorded-miss"})
+    # behaviour-preserving refactorings (negative witnesses): the check must stay silent (exit 0) on each of them
+    rdir = os.path.join(os.path.dirname(os.path.dirname(os.path.abspath(__file__))), "refactors")
+    expected_path = os.path.join(rdir, "expected.json")
+    expected = {}
+    if os.path.exists(expected_path):
+        import json as _json
+        expected = _json.load(open(expected_path, encoding="utf-8"))
+    if os.path.isdir(rdir):
+        for name in sorted(os.listdir(rdir)):
+            pf = os.path.join(rdir, name, "patch.diff")
+            if os.path.exists(pf):
+                exp = expected.get(name, {}).get(pid, 0)
+                witnesses.append({"name": f"refactor {name}", "patch": pf, "rule": "", "kind": "refactor", "expected_exit": exp})
     if not witnesses:
         return {"witnesses": 0, "failed": [], "results": []}
     jobs = [(pid, root, w) for w in witnesses]
@@ -164,8 +200,10 @@ def run_selftest(pid: str, root: str) -> dict:
     failed = [f"{r['name']}: {r['status']} ({r['detail']})" for r in results
               if r["status"] in ("missed", "not-silent", "error")]
     stale = [r["name"] for r in results if r["status"] == "stale"]
-    fired = sum(1 for r in results if r["status"] in ("fired", "fired-as-analysis-error", "silent"))
+    fired = sum(1 for r in results if r["status"] in ("fired", "fired-as-analysis-error", "silent", "repaired"))
     out = {"witnesses": len(witnesses), "fired_or_silent_as_expected": fired, "stale": stale,
+           "seeded_recorded_misses": [r["name"] for r in results if r["status"].startswith("recorded-miss")],
+           "refactor_known_false_alarms": [r["name"] for r in results if r["status"] == "known-false-alarm"],
            "failed": failed, "results": results}
     # a stale witness means /repo's text changed under the witness: it is reported, not failed, but at least
     # half of the witnesses must still apply or the self-test is void
